@@ -43,7 +43,12 @@ def generate(seed_: int, run: int, reactions: list[str]) -> dict:
         files.append(("model", name, fp))
     for k in range(rng.choice([1, 2, 3]) if n_models else rng.choice([2, 3, 4])):
         name = f"expr{k}.pkl"
-        ops.append({"op": "dump_expr", "e": rng.randrange(10**6), "file": name})
+        if rng.random() < 0.3:
+            # seeded random composite of library expressions (arithmetic, nesting, PoolSum), folded or unfolded
+            choice = f"rand:{rng.randrange(10**6)}" + ("u" if rng.random() < 0.3 else "")
+        else:
+            choice = rng.randrange(10**6)
+        ops.append({"op": "dump_expr", "e": choice, "file": name})
         files.append(("expr", name, False))
     twin_group = twin_member = None
     if rng.random() < 0.35:
